@@ -471,6 +471,25 @@ fn ber_cmd(l: &mut Local, rng: &mut Rng, dir: &str, idx: u64) {
     let dec = *rng.pick(&["Phif64", "Minstarapproxi8", "HLAminstarf32", "Tanhf32"]);
     let (mins, maxs, steps, fes, bchs) = (format!("--min-ebn0={}", min), format!("--max-ebn0={}", max), format!("--step-ebn0={}", step), fe.to_string(), bch.to_string());
     let mut args = vec!["ber", mins.as_str(), maxs.as_str(), steps.as_str(), "--frame-errors", fes.as_str(), "--max-iter", "5", "--decoder", dec, "--output-file", opath.as_str()];
+    // optional valid processing chain: tail puncturing (pattern length dividing n), interleaver dividing the frame, 8PSK
+    let plen = (3..=6).find(|x| n % x == 0);
+    let punct = if rng.chance(0.4) { plen.map(|x| { let mut v = vec!["1"; x]; v[x - 1] = "0"; v.join(",") }) } else { None };
+    let nframe = match (&punct, plen) { (Some(_), Some(x)) => n / x * (x - 1), _ => n };
+    let ilv = if rng.chance(0.4) { (2..=4).find(|c| nframe % c == 0).map(|c| if rng.coin() { c.to_string() } else { format!("-{}", c) }) } else { None };
+    let ilv_arg = ilv.as_ref().map(|c| format!("--interleaving={}", c));
+    let psk8 = nframe % 3 == 0 && rng.chance(0.4);
+    if let Some(p) = &punct {
+        args.push("--puncturing");
+        args.push(p);
+    }
+    if let Some(a) = &ilv_arg {
+        args.push(a);
+    }
+    if psk8 {
+        // (the command line's own value list calls it PSK8; "8PSK" is what Display prints)
+        args.push("--modulation");
+        args.push("PSK8");
+    }
     if bch > 0 {
         args.push("--bch-max-errors");
         args.push(&bchs);
